@@ -211,6 +211,23 @@ def bounded_standin(plan, prop, r, repo, tier):
     """a function the verifier cannot reach: bounded check of that function, labelled bounded"""
     spec = plan.find_job(r["job"])
     unroll = 3 if tier == "quick" else 5
+    fam = schedule_scenario(r["job"])
+    if fam:
+        # concurrency jobs: the bounded stand-in is the native schedule exploration of the real code, which runs as
+        # its own part of the check (bounded/<family>-schedules); re-running the engine without cuts adds nothing
+        out = {"function": ".".join(r.get("impl") or ["?"]), "job": r["job"], "why": r["undecided"],
+               "method": f"bounded native schedule exploration of the real code: replay/schedules.py {fam} {tier}, label: bounded"}
+        try:
+            p = subprocess.run(["/venv/bin/python", os.path.join(VERIF, "replay", "schedules.py"), fam, tier], capture_output=True, text=True,
+                               timeout=3000, env={**os.environ, "PYTHONPATH": repo})
+            res = json.loads(p.stdout.strip().splitlines()[-1])
+            out["schedules"], out["bound"] = res.get("schedules"), res.get("bound")
+            if res.get("violations"):
+                out["violation"] = {"name": f"{r['job']}/bounded-schedules", "kind": "bounded", "status": "failed", "detail": json.dumps(res["violations"][0])[:900],
+                                    "trace": None, "model": None, "native": {"violation": res["violations"][0]}}
+        except Exception as e:
+            out["error"] = repr(e)
+        return out
     res = runner.run_jobs([spec], mode="bounded", unroll=unroll, procs=1, repo=repo)[0]
     out = {"function": ".".join(r.get("impl") or ["?"]), "job": r["job"], "why": r["undecided"],
            "method": f"pyvc bounded mode (loops unrolled {unroll}x, no havoc), label: bounded", "paths": res.get("paths", 0)}
